@@ -9,7 +9,7 @@ import (
 
 type GNode struct {
 	Key  string `json:"key"`
-	Kind string `json:"kind"` // VerifProbe | MockProcessor | Filter | GenerateResponse
+	Kind string `json:"kind"` // VerifProbe | MockProcessor | Filter | GenerateResponse | ref (another flow's processor, key "<flow>.<key>")
 }
 
 // GEdge is one connection. From=="" means "stream start", To=="" means "stream end".
@@ -85,6 +85,10 @@ func (f GFlow) YAML() string {
 	var sb strings.Builder
 	fmt.Fprintf(&sb, "name: %s\nfilter:\n  url: \"%s\"\n%sprocessors:\n", f.Name, f.URL, f.FilterExtra)
 	for _, n := range f.Nodes {
+		if n.Kind == "ref" {
+			// "<flow>.<key>": another flow's processor used by name, nothing is defined here
+			continue
+		}
 		fmt.Fprintf(&sb, "  %s:\n    processor: %s\n", n.Key, n.Kind)
 		switch n.Kind {
 		case "Filter":
